@@ -38,7 +38,7 @@ def cases(seed, tier):
         yield {"family": fams[i % len(fams)], "sub": int(rng.integers(0, 2**31)), "volume": (i % 3 == 0)}
     for i in range(2 if tier == "quick" else 12):
         # (the thorough tier goes to 5e6 elements: above 2^22)
-        yield {"family": "big", "sub": int(rng.integers(0, 2**31)), "volume": False, "first": i == 0, "cap": 2 ** 22 + 5 if tier == "quick" else None}
+        yield {"family": "big", "sub": int(rng.integers(0, 2**31)), "volume": False, "first": i == 0, "cap": 2 ** 22 + 5 if tier == "quick" else 5 * 10 ** 6 + 3}
 
 
 def params_of(obj):
